@@ -217,7 +217,8 @@ fn lexi_x_to_9(x: &str, incl: bool) -> Result<String> {
             Ok(mk_or(parts))
         }
     } else if x.is_empty() {
-        Ok("[0-9]*[1-9]".to_string())
+        // any fraction greater than zero; trailing zeros do not change the value
+        Ok("[0-9]*[1-9][0-9]*".to_string())
     } else {
         let x0 = x
             .chars()
@@ -243,7 +244,8 @@ fn lexi_x_to_9(x: &str, incl: bool) -> Result<String> {
 fn lexi_0_to_x(x: &str, incl: bool) -> Result<String> {
     if x.is_empty() {
         if incl {
-            Ok("".to_string())
+            // equal to the bound: only trailing zeros may follow
+            Ok("0*".to_string())
         } else {
             Err(anyhow!("Inclusive flag must be true for an empty string"))
         }
@@ -265,13 +267,18 @@ fn lexi_0_to_x(x: &str, incl: bool) -> Result<String> {
             return Ok(format!("[0-{}][0-9]*", x0 - 1));
         }
 
-        let mut parts = vec![format!(
-            "{}{}",
-            x.chars()
-                .next()
-                .ok_or_else(|| anyhow!("String x is unexpectedly empty"))?,
-            lexi_0_to_x(x_rest, incl)?
-        )];
+        let first = x
+            .chars()
+            .next()
+            .ok_or_else(|| anyhow!("String x is unexpectedly empty"))?;
+        let rest_rx = lexi_0_to_x(x_rest, incl)?;
+        // x has no trailing zeros, so a non-empty rest is greater than zero and the
+        // shorter literal consisting of the first digit alone is below the bound
+        let mut parts = vec![if x_rest.is_empty() {
+            format!("{first}{rest_rx}")
+        } else {
+            format!("{first}({rest_rx})?")
+        }];
         if x0 > 0 {
             parts.push(format!("[0-{}][0-9]*", x0 - 1));
         }
@@ -285,7 +292,7 @@ fn lexi_range(ld: &str, rd: &str, ld_incl: bool, rd_incl: bool) -> Result<String
     }
     if ld == rd {
         if ld_incl && rd_incl {
-            Ok(ld.to_string())
+            Ok(format!("{ld}0*"))
         } else {
             Err(anyhow!(
                 "Empty range when ld equals rd and not both inclusive"
@@ -307,13 +314,17 @@ fn lexi_range(ld: &str, rd: &str, ld_incl: bool, rd_incl: bool) -> Result<String
         if l0 == r0 {
             let ld_rest = &ld[1..];
             let rd_rest = &rd[1..];
-            Ok(format!(
-                "{}{}",
-                ld.chars()
-                    .next()
-                    .ok_or_else(|| anyhow!("ld is unexpectedly empty"))?,
-                lexi_range(ld_rest, rd_rest, ld_incl, rd_incl)?
-            ))
+            let first = ld
+                .chars()
+                .next()
+                .ok_or_else(|| anyhow!("ld is unexpectedly empty"))?;
+            let rest_rx = lexi_range(ld_rest, rd_rest, ld_incl, rd_incl)?;
+            if ld_incl && ld_rest.trim_end_matches('0').is_empty() {
+                // the lower bound ends in zeros only: the common digits alone denote it
+                Ok(format!("{first}({rest_rx})?"))
+            } else {
+                Ok(format!("{first}{rest_rx}"))
+            }
         } else {
             if l0 >= r0 {
                 return Err(anyhow!("l0 must be less than r0"));
@@ -331,13 +342,17 @@ fn lexi_range(ld: &str, rd: &str, ld_incl: bool, rd_incl: bool) -> Result<String
             }
             let rd_rest = rd[1..].trim_end_matches('0');
             if !rd_rest.is_empty() || rd_incl {
-                parts.push(format!(
-                    "{}{}",
-                    rd.chars()
-                        .next()
-                        .ok_or_else(|| anyhow!("rd is unexpectedly empty"))?,
-                    lexi_0_to_x(rd_rest, rd_incl)?
-                ));
+                let first = rd
+                    .chars()
+                    .next()
+                    .ok_or_else(|| anyhow!("rd is unexpectedly empty"))?;
+                let rest_rx = lexi_0_to_x(rd_rest, rd_incl)?;
+                if rd_rest.is_empty() {
+                    parts.push(format!("{first}{rest_rx}"));
+                } else {
+                    // the first digit alone is below the upper bound
+                    parts.push(format!("{first}({rest_rx})?"));
+                }
             }
             Ok(mk_or(parts))
         }
@@ -379,7 +394,7 @@ pub fn rx_float_range(
             if right == 0.0 {
                 let r = format!("-{}", rx_float_range(Some(0.0), None, false, false)?);
                 if right_inclusive {
-                    Ok(mk_or(vec![r, "0".to_string()]))
+                    Ok(mk_or(vec![r, "0(\\.0+)?".to_string()]))
                 } else {
                     Ok(r)
                 }
@@ -405,7 +420,10 @@ pub fn rx_float_range(
             }
             if left == right {
                 if left_inclusive && right_inclusive {
-                    Ok(format!("({})", escape(&float_to_str(left))))
+                    let lit = float_to_str(left);
+                    // the same value written with trailing zeros
+                    let zeros = if lit.contains('.') { "0*" } else { "(\\.0+)?" };
+                    Ok(format!("({}{})", escape(&lit), zeros))
                 } else {
                     Err(anyhow!(
                         "Empty range when left equals right and not both inclusive"
@@ -468,7 +486,7 @@ pub fn rx_float_range(
                         "\\.{}",
                         lexi_range(&ld, &rd, left_inclusive, right_inclusive)?
                     );
-                    if ld.parse::<i64>().unwrap_or(0) == 0 {
+                    if left_inclusive && ld.parse::<i64>().unwrap_or(0) == 0 {
                         Ok(format!("({left_rec}({suff})?)"))
                     } else {
                         Ok(format!("({left_rec}{suff})"))
